@@ -19,6 +19,13 @@ potential_nodes, voltage_ids, current_ids)` with all outputs requested is checke
 phasor solution too — on a description, then in the same process on the same description with
 every R, L, C perturbed (same ids, nodes, order), then on the first again (canon
 `op: state_space_wrapper, same_ids_different_values`); its A, B against the nodal model's.
+Revisit stream: the same with ONLY the L / C values changed (the w = 0 network handed to the builder is
+identical), both orders.  Unit-scale stream (`si_oracle`): the same circuit classes in realistic SI
+units — exact decade scalings of impedance level and time scale, and log-uniform values, R from mΩ to
+GΩ, C from pF to F, L from nH to H — nodal model and public wrapper against the exact phasor solution
+at frequencies taken from the MODEL's state matrix, voltages and currents each against their own
+magnitude, relative tolerance max(1e-9, 1e-17·cond) with a guard at cond 1e14 (skipped cases are
+counted); a singular state matrix is a failure (no natural frequency at s = 0 in the domain).
 """
 from __future__ import annotations
 import numpy as np
@@ -278,6 +285,128 @@ def oracle(ctx, out, desc, im) -> bool:
             out.skip('dc_singular')
     return True
 
+SI_COND_GUARD = 1e14
+
+def si_tolerance(cnd: float) -> float:
+    """relative tolerance of the unit-scale streams, tied to the condition number of what the
+    implementation inverts (measured float error stays ~1e-15 up to cond 1e13: bad scaling, not ill-posedness)"""
+    return max(1e-9, 1e-17 * cnd)
+
+def model_frequencies(ctx, desc, im, quick=True):
+    """frequencies from the MODEL's state matrix (exact, independent of the implementation's A): the time
+    constants of the circuit in its own units"""
+    if ctx.driver is not None:
+        m = ctx.driver.call('ss_model', net=gen_net.impl_to_json(im.network), cvals=gs.dict_items(im.cvals),
+                            lvals=gs.dict_items(im.lvals), pots=[], ids=[], spots=[], sids=[])
+        if 'A' in m:
+            return gs.frequencies(np.array([[core.cfloat(x).real for x in r] for r in m['A']]), quick), m
+    return gs.frequencies(np.asarray(im.ssm.A, dtype=float), quick), None
+
+def si_oracle(ctx, out, desc, origin='si') -> bool:
+    """unit-scale stream: the same circuit classes in realistic SI units (R from mΩ to GΩ, C from pF to F,
+    L from nH to H).  Transfer function / DC gain of the implementation's nodal model AND of the public
+    wrapper against the exact phasor solution, compared per physical kind (voltages against the largest
+    expected voltage, currents against the largest expected current) with a relative tolerance tied to
+    the condition number of the matrices the implementation inverts."""
+    from CircuitCalculator.Circuit.state_space_model import state_space_model
+    drv = ctx.driver
+    out.evaluations += 1
+    out.count('si_cases')
+    ok, why = gs.nondegenerate(drv, desc)
+    if not ok:
+        out.count('degenerate:' + why); return True
+    inp = gs.pretty(desc)
+    scanon = lambda symptom, **kw: dict(op='state_space', symptom=symptom, si_units=True, **gs.facts(desc), **EXTRA_CANON, **kw)
+    try:
+        im = gs.impl_model(desc)
+    except Exception as e:
+        out.spec_fail(scanon('raises', exc=gs.gen_tag(e)), f'non-degenerate circuit in SI units: state-space model raises '
+                      f'{type(e).__name__}: {e}', inp, desc=desc); return False
+    ssm = im.ssm
+    A, B = np.asarray(ssm.A, dtype=float), np.asarray(ssm.B, dtype=float)
+    if not (np.all(np.isfinite(A)) and np.all(np.isfinite(B))):
+        out.spec_fail(scanon('non_finite'), 'state-space matrices are not finite', inp, desc=desc); return False
+    cnd = max([cond_of(p) for p in im.inverses] + [1.0])
+    if not cnd <= SI_COND_GUARD:
+        out.skip('si_ill_conditioned'); return True
+    rel = si_tolerance(cnd)
+    out.nontrivial(('si',) + gs.shape(desc))
+    ns = A.shape[0]
+    labels, ids = gs.labels_of(desc), [c['id'] for c in desc['comps']]
+    sources = list(ssm.sources)
+    ipot, iel = gs.impl_rows(ssm, labels, ids)
+    rows, keys = [], []
+    try:
+        for n in labels:
+            rows.append((ipot[n]['c']['ok'], ipot[n]['d']['ok'])); keys.append(('pot', n))
+        for i in ids:
+            rows.append((iel[i]['vc']['ok'], iel[i]['vd']['ok'])); keys.append(('v', i))
+            rows.append((iel[i]['ic']['ok'], iel[i]['id_']['ok'])); keys.append(('i', i))
+    except KeyError:
+        out.spec_fail(scanon('raises'), 'an output row raises', inp, desc=desc); return False
+    try:
+        sm = state_space_model(im.circuit, potential_nodes=labels, voltage_ids=ids, current_ids=ids)
+        Cw, Dw = np.asarray(sm.C, dtype=float), np.asarray(sm.D, dtype=float)
+        pos = {('pot', n): k for k, n in enumerate(labels)}
+        pos.update({('v', i): len(labels) + k for k, i in enumerate(ids)})
+        pos.update({('i', i): len(labels) + len(ids) + k for k, i in enumerate(ids)})
+        wrows = [(Cw[pos[key]], Dw[pos[key]]) for key in keys]
+        variants = [('nodal model', A, B, rows), ('public wrapper state_space_model', np.asarray(sm.A, dtype=float), np.asarray(sm.B, dtype=float), wrows)]
+    except Exception as e:
+        out.spec_fail(scanon('raises', exc=gs.gen_tag(e)), f'state_space_model(circuit, …) raises {type(e).__name__}: {e}', inp, desc=desc)
+        return False
+    ws, _ = model_frequencies(ctx, desc, im, True)
+    for w in ws:
+        sols = {}
+        for name, Av, Bv, rv in variants:
+            H = transfer_rows(drv, Av, Bv, rv, w)
+            if H is None:
+                # a non-degenerate circuit has no natural frequency at s = 0; elsewhere: exactly on a resonance
+                if w == 0:
+                    out.spec_fail(scanon('natural_frequency_at_zero'), f'{name}: the state matrix is singular although the circuit '
+                                  f'has no natural frequency at s = 0 (DC network well-posed)', inp, impl=dict(A=Av.tolist()), desc=desc)
+                    return False
+                out.skip('resolvent_singular'); continue
+            for k, src in enumerate(sources):
+                if src not in sols:
+                    sols[src] = gs.spec_solve(drv, gs.phasor_net(desc, w, active=src))
+                sol = sols[src]
+                if not sol['wellposed']:
+                    out.skip('phasor_illposed_at_w'); continue
+                exp = gs.expected_outputs(desc, sol)
+                sv, si = gs.unit_scales(desc, exp)
+                for key, h in zip(keys, H):
+                    sc = si if key[0] == 'i' else sv
+                    if not (abs(h[k] - exp[key]) <= rel * sc):
+                        what = {'pot': 'potential of node', 'v': 'voltage of', 'i': 'current of'}[key[0]]
+                        out.spec_fail(scanon('dc_gain' if w == 0 else 'transfer_mismatch', output=key[0]),
+                                      f'{name}, SI units: {what} {key[1]!r} in response to source {src!r} at w={float(w):.6g} rad/s: '
+                                      f'C(jw−A)⁻¹B+D gives {h[k]}, the phasor solution is {exp[key]} '
+                                      f'(scale of this kind {sc:.3g}, tolerance {rel:.1e}, cond {cnd:.3g})', inp,
+                                      impl=dict(A=Av.tolist(), B=Bv.tolist(), sources=sources, value=h[k]),
+                                      spec=dict(w=str(w), source=src, expected=exp[key]), desc=desc)
+                        return False
+                out.count('si_transfer_points')
+    return True
+
+# ordinary laboratory values that must be admitted (not skipped) by the unit-scale streams
+SI_CORPUS = [
+    dict(ground='0', ground_pos=3, si=dict(note='RC low-pass 1 kΩ / 10 nF'), comps=[
+        dict(kind='V', id='Vs', n1='1', n2='0', val=1.0), dict(kind='R', id='R1', n1='1', n2='2', val=1e3),
+        dict(kind='C', id='C1', n1='2', n2='0', val=10e-9)]),
+    dict(ground='0', ground_pos=0, si=dict(note='RL 50 Ω / 1 nH with 100 pF'), comps=[
+        dict(kind='V', id='Vs', n1='1', n2='0', val=1.0), dict(kind='R', id='R1', n1='1', n2='2', val=50.0),
+        dict(kind='L', id='L1', n1='2', n2='3', val=1e-9), dict(kind='C', id='C1', n1='3', n2='0', val=100e-12),
+        dict(kind='R', id='R2', n1='3', n2='0', val=75.0)]),
+    dict(ground='0', ground_pos=0, si=dict(note='electrometer input 1 GΩ / 1 pF, 100 MΩ source'), comps=[
+        dict(kind='V', id='Vs', n1='1', n2='0', val=1.0), dict(kind='R', id='R1', n1='1', n2='2', val=1e8),
+        dict(kind='C', id='C1', n1='2', n2='0', val=1e-12), dict(kind='R', id='R2', n1='2', n2='0', val=1e9)]),
+    dict(ground='0', ground_pos=0, si=dict(note='current source into 2.2 MΩ ∥ 4.7 nF, series 33 mH'), comps=[
+        dict(kind='I', id='Is', n1='0', n2='1', val=1e-6), dict(kind='R', id='R1', n1='1', n2='0', val=2.2e6),
+        dict(kind='C', id='C1', n1='1', n2='0', val=4.7e-9), dict(kind='L', id='L1', n1='1', n2='2', val=33e-3),
+        dict(kind='R', id='R2', n1='2', n2='0', val=4.7e3)]),
+]
+
 def wrapper_oracle(ctx, out, desc, repeated, replay_info) -> bool:
     """the PUBLIC circuit-level wrapper `state_space_model(circuit, potential_nodes, voltage_ids,
     current_ids)` with every output requested: transfer function / DC gain of the returned
@@ -367,6 +496,10 @@ def check_case(ctx, out, desc, origin='random'):
         correspondence(ctx, out, desc, im)
     if oracle(ctx, out, desc, im):
         out.sample(gs.pretty(desc))
+
+def dispatch(ctx, out, desc, origin):
+    """unit-scale descriptions go to the unit-aware oracle, ordinary ones to the full check"""
+    return si_oracle(ctx, out, desc, origin) if 'si' in desc else check_case(ctx, out, desc, origin)
 
 def container_cases(ctx, out):
     """the container's five shape checks, model vs implementation, on consistent and inconsistent shapes"""
@@ -475,11 +608,13 @@ def run(ctx, out):
     vr = ctx.rng('vary-corpus')
     for desc in (CORPUS[0], CORPUS[1], CORPUS[3], CORPUS[5]):
         wrapper_sequence(ctx, out, desc, gs.vary_values(vr, desc))
+    for desc in SI_CORPUS:
+        si_oracle(ctx, out, desc, 'si_corpus')
     container_cases(ctx, out)
     malformed_cases(ctx, out)
     rng = ctx.rng('random')
     n_random = 160 if ctx.quick else 2500
-    reserve = 8 if ctx.quick else 60
+    reserve = 8 if ctx.quick else 420          # thorough: stop the random stream after ≈ 18 min
     for k in range(n_random):
         if ctx.time_left() < reserve: out.notes.append(f'stopped after {k} random cases (budget)'); break
         safe = rng.random() < 0.4
@@ -489,6 +624,19 @@ def run(ctx, out):
             if ok: break
             out.count('rejected_degenerate:' + why)
         check_case(ctx, out, desc)
+        # unit-scale stream: the same circuit in realistic SI units (exact decade scalings and log-uniform values)
+        if rng.random() < (0.35 if ctx.quick else 1.0):
+            # (run as one sequence after the base circuit: same ids, other values, same process — the replay
+            #  carries the prelude)
+            gs.run_sequence(out, EXTRA_CANON, [desc, gs.si_desc(rng, desc, exact=True), gs.si_desc(rng, desc, exact=False)],
+                            lambda d: dispatch(ctx, out, d, 'si'))
+        # revisit stream: same circuit and ids, ONLY the L / C values differ (the w = 0 network is identical),
+        # same process, both orders — through the nodal model and the public wrapper
+        if gs.facts(desc)['n_reactive'] >= 1 and rng.random() < (0.35 if ctx.quick else 1.0):
+            d2 = gs.vary_values(rng, desc, kinds=('C', 'L'))
+            first, second = (desc, d2) if rng.random() < 0.5 else (d2, desc)
+            wrapper_sequence(ctx, out, first, second)
+            gs.run_sequence(out, EXTRA_CANON, [first, second, first], lambda d: dispatch(ctx, out, d, 'revisit'))
         # wrapper / value-variation stream: same ids, nodes and order, other R, L, C, same process
         if rng.random() < (0.5 if ctx.quick else 1.0):
             d2 = gs.vary_values(rng, desc)
@@ -504,12 +652,15 @@ def run(ctx, out):
                 check_case(ctx, out, d2, 'permuted')
 
 def replay(ctx, out, rp):
+    if isinstance(rp.get('desc'), dict) and 'si' in rp['desc'] and not rp.get('sequence') and not rp.get('wrapper_sequence'):
+        si_oracle(ctx, out, rp['desc'], 'replay')
+        return
     if rp.get('wrapper_sequence'):
         ws = rp['wrapper_sequence']
         wrapper_sequence(ctx, out, ws['first'], ws['second'])
         return
     if rp.get('sequence'):
-        gs.run_sequence(out, EXTRA_CANON, rp['sequence'], lambda d: check_case(ctx, out, d, 'replay'))
+        gs.run_sequence(out, EXTRA_CANON, rp['sequence'], lambda d: dispatch(ctx, out, d, 'replay'))
         return
     desc = rp.get('desc')
     if desc is None and rp.get('shapes'):
